@@ -27,9 +27,10 @@ def generate(seed, mode="c09", opts=None):
     gens = []
     for g in range(ngen):
         shape = ch.pick(["P1", "P2", "P3", "P4", "P0"], "shape")
-        body = ch.weighted([(5, "build"), (3 if g > 0 else 0, "call"), (2 if g > 0 else 0, "pass"), (2, "raise_n")], "body")
-        callee = ch.draw(g, "callee") if g > 0 else None
-        gens.append({"shape": shape, "body": body, "callee": callee, "n_fail": ch.rint(1, 2, "nfail") if body == "raise_n" else 0, "cache": True})
+        cached = [j for j in range(g) if gens[j]["cache"]]  # only caching generators are called by others
+        body = ch.weighted([(5, "build"), (3 if cached else 0, "call"), (2 if cached else 0, "pass"), (2, "raise_n")], "body")
+        callee = ch.pick(cached, "callee") if cached and body in ("call", "pass") else None
+        gens.append({"shape": shape, "body": body, "callee": callee, "n_fail": ch.rint(1, 2, "nfail") if body == "raise_n" else 0, "cache": not (body == "call" and ch.chance(1, 3))})
     ncalls = ch.rint(4, 20, "ncalls")
     ops = []
     for _ in range(ncalls):
@@ -135,10 +136,11 @@ class Env:
                 if left > 0:
                     env.fail_left[key] = left - 1
                     raise seams.InjectedFault(f"generator body {gid} fails")
-            env.body_runs[key] = env.body_runs.get(key, 0) + 1
             if g["body"] == "pass":
                 inner = env.gens[g["callee"]]
-                return inner(env.derive(g["callee"], p))
+                rv = inner(env.derive(g["callee"], p))
+                env.body_runs[key] = env.body_runs.get(key, 0) + 1  # counts completed runs
+                return rv
             m = h.Module()
             m.p = h.Port(width=1 + (hash64(repr_params(p)) % 3))
             if g["body"] == "call":
@@ -148,6 +150,7 @@ class Env:
                 for pname, port in sub.ports.items():
                     conns[pname] = m.add(h.Signal(name="w_" + pname, width=port.width))
                 m.add(sub(**conns), name="sub")
+            env.body_runs[key] = env.body_runs.get(key, 0) + 1  # counts completed runs
             return m
 
         body.__name__ = f"Gen{gid}"
@@ -206,6 +209,8 @@ def exec_calls(arg):
     results = {}  # op index -> module
     model = {}  # (gid, params) -> op index of first successful call
     names_seen = {}  # id(module) -> (name, module)
+    uncached_results = set()
+    reported_runs = set()
     findings = []
     probes = {}
 
@@ -266,6 +271,9 @@ def exec_calls(arg):
                 continue
             after_runs = env.body_runs.get(key, 0)
             results[i] = m
+            if not g["cache"]:
+                uncached_results.add(i)
+                probe("uncached_generator_call")
             if g["cache"]:
                 if key in model:
                     first = results[model[key]]
@@ -288,6 +296,11 @@ def exec_calls(arg):
                         elif g2 == gid and j != i and results[j].name == m.name:
                             fail("unequal-params-same-name", f"calls #{j} and #{i}: unequal parameters {repr_params(p2)} / {repr_params(p)} give one name {m.name!r}")
             check_names()
+            # a caching generator's body runs once per parameter value, whoever calls it
+            for (g3, p3), n3 in env.body_runs.items():
+                if n3 > 1 and scn["gens"][g3]["cache"] and (g3, p3) not in reported_runs:
+                    reported_runs.add((g3, p3))
+                    fail("body-ran-twice", f"after call #{i}: the body of caching generator {g3} has run {n3} times for {repr_params(p3)}")
             names_seen.setdefault(id(m), (m.name, m))
             obs[i] = {"name": m.name, "qual": _qual(h, m)}
         elif op[0] in ("export_pair", "export_all"):
@@ -295,6 +308,8 @@ def exec_calls(arg):
                 idx = [op[1], op[2]]
             else:
                 idx = sorted(results)
+            # results of generators that do not cache are fresh modules with equal names by design
+            idx = [j for j in idx if j not in uncached_results]
             mods = []
             for j in idx:
                 if j in results and results[j] not in mods:
